@@ -69,7 +69,8 @@ def main(argv):
                 given = rng.random() < 0.5               # engine id given (constructor installs the keys) or discovered (set_keys does)
                 v3 = {"user": "u" * rng.choice([1, 8, 32]), "auth": [auth, kt, gen.rbytes(rng, ks if kt else 9, False).hex()] if auth else None,
                       "priv": [priv, pkt, gen.rbytes(rng, ks if pkt else 9, False).hex()] if priv else None, "engine_id": eng if given else None, "agent_engine_id": eng,
-                      "boots": rng.choice([0, 127, 128, 2 ** 31 - 1]), "time": rng.choice([0, 255, 65536, 2 ** 31 - 1])}
+                      "boots": rng.choice([0, 127, 128, 2 ** 31 - 1]), "time": rng.choice([0, 255, 65536, 2 ** 31 - 1]),
+                      "engine_id_empty": (not given) and rng.random() < 0.5}
                 steps = [{"op": "enter", "default_reply": {"pdu_tag": 0xA8, "mac": "absent", "encrypt": "no", "flags": 0}}]
                 for noids in ([1, 2, 4, 6, 9, 12, 20, 60, 150] if thorough else [1, 4, 6, 9, 20, 150]):
                     oids = [ber.oid_text([1, 3, 6, 1, 2, 1, 2, 2, 1, 10, i]) for i in range(noids)]
